@@ -3,9 +3,9 @@ SPEC = {
     'harness': 'hC22',
     'coq_dir': 'C22',
     'claimed': False,
-    'theorems': ['C22_admitted_implies_acceptable_partial', 'C22_group_members_checked',
-                 'C22_rejected_leaves_pool_unchanged', 'C22_admitted_appends_one',
-                 'C22_admitted_implies_acceptable_refuted', 'C22_refuted_forward', 'C22_refuted_wrapper',
+    'theorems': ['C22_accepted_implies_acceptable_partial', 'C22_group_members_checked',
+                 'C22_rejected_leaves_pool_unchanged', 'C22_accepted_appends_one',
+                 'C22_accepted_implies_acceptable_refuted', 'C22_refuted_forward', 'C22_refuted_wrapper',
                  'C22_refuted_negfee', 'C22_refuted_hdrempty', 'C22_guards_satisfiable'],
     'allowed_axioms': [],
     'shard': 20,
